@@ -178,6 +178,12 @@ func UnifyGenericType [C15]
   loop 1 invariant genericTypes != nil
   loop 1 end requires Equal(paramTypParam, argTypParam)
 
+// C03: unification never indexes outside the type-argument lists, whatever two types it is given (the argument may be
+// an instantiation of a different generic Kombination with fewer type arguments)
+func UnifyGenericType#2 [C03]
+  safe bounds
+  requires genericTypes != nil
+
 // instantiations are cached per generic Kombination: the first cached instantiation whose type arguments are pairwise
 // equivalent to the requested ones is returned (equal arguments => one and the same type object) ...
 func GetInstantiatedStructType [C15]
